@@ -24,7 +24,7 @@ META = {
     "encoded": ["memory._Namespace.is_available", "memory._Namespace.assign", "memory._Namespace.extend",
                 "memory._Namespace.names", "memory.MemoryMap.Name.__new__", "memory.MemoryMap.add_resource",
                 "memory.MemoryMap.add_window", "memory.MemoryMap.all_resources"],
-    "also": "alphabet {'a','b','ab','0',0,300} (300 is not cached by CPython; concrete replays build fresh objects); the same Name object re-used; names handed back from resources(); anonymous windows nested two deep; refused windows must stay usable; heavy shapes split over processes by the first part",
+    "also": "alphabet {'a','b','ab','0',0,300} (300 is not cached by CPython; concrete replays build fresh objects); the same Name object re-used; names handed back from resources(); anonymous windows nested two deep; refused windows must stay usable; anonymous windows also mapped into a second parent with names of its own; named windows nested two deep with equal leaf names; heavy shapes split over processes by the first part",
     "bounds": "up to 3 names (thorough 4) of length 1-2 (pairs up to length 3) over the alphabet "
               "{'a','b','ab','0',0,1}; added as resources, named windows, or resources inside an anonymous window "
               "(absorbed names); an interleaved add that fails for a non-name reason (out-of-bounds address) followed "
@@ -59,7 +59,13 @@ def configs(tier, seed):
              # the SAME MemoryMap.Name object handed in twice / a Name taken from resources() handed back
              [["aa", 1], ["r", 1]], [["aa", 2], ["r", 1]], [["r", 1], ["aa", 1, 1]],
              [["rn", 1], ["same"]], [["rn", 2], ["r", 1], ["same"]], [["a", 1], ["back"]], [["a", 2, 1], ["r", 1], ["back"]]]
-    for s in two + three:
+    # "share": every anonymous window accepted by the root is afterwards also mapped, without a name, into a SECOND
+    # parent that already holds one name of its own (a peripheral block shared by two bus masters' maps);
+    # "ww": a named window holding two named windows that each hold a resource called ("leaf",)
+    shared = [[["a", 1], ["r", 1], ["share", 1]], [["a", 1], ["r", 2], ["share", 1]], [["a", 2], ["r", 1], ["share", 2]],
+              [["r", 1], ["a", 1], ["share", 1]], [["a", 1], ["w", 1], ["share", 1]], [["aa", 1], ["r", 1], ["share", 1]]]
+    nested = [[["ww", 1], ["r", 1]], [["ww", 2], ["r", 2]], [["r", 1], ["ww", 1]], [["ww", 1], ["ww", 1]]]
+    for s in two + three + shared + nested:
         if sum(x for op in s for x in op[1:] if isinstance(x, int)) >= 5 and len(s) >= 3:
             for k in range(len(ALPHA)):
                 out.append({"ops": s, "pin0": k})
@@ -116,9 +122,48 @@ def harness_for(cfg):
         def counts():
             return (len(list(root.resources())), len(list(root.windows())), len(list(root.all_resources())))
         last_name_obj = [None]
+        anon = []             # (window map, its own names) for anonymous windows the root accepted
         for op in ops:
             kind, lens = op[0], op[1:]
             before = counts()
+            if kind == "share":
+                other = MemoryMap(addr_width=8, data_width=8)
+                own = name(lens[0])
+                other.add_resource(Res(), name=own, size=1)
+                vis2 = [own]
+                for wmap, wnames in anon:
+                    conf2 = b_or(*[_conflict(nm, v) for nm in wnames for v in vis2])
+                    try:
+                        other.add_window(wmap)
+                        E.observe("shared-ok")
+                        E.prove(b_not(conf2), "a shared window whose names conflict with the second parent's was accepted")
+                        vis2.extend(wnames)
+                    except ValueError:
+                        E.observe("shared-refused")
+                        E.prove(conf2, "a window already mapped elsewhere was refused by a second parent although its own "
+                                       "names are free there")
+                E.prove(counts() == before, "mapping a window into a second parent changed the first parent")
+                continue
+            if kind == "ww":
+                outer = MemoryMap(addr_width=4, data_width=8)
+                wname = name(lens[0])
+                i1, i2 = name(1), name(1)
+                E.assume(b_not(_conflict(i1, i2)))
+                for inm in (i1, i2):
+                    leafmap = MemoryMap(addr_width=1, data_width=8)
+                    leafmap.add_resource(Res(), name=("leaf",), size=1)
+                    outer.add_window(leafmap, name=inm)
+                conf = b_or(*[_conflict(wname, v) for v in visible])
+                try:
+                    root.add_window(outer, name=wname)
+                    E.observe("ok")
+                    E.prove(b_not(conf), "a window whose name conflicts with visible names was accepted")
+                    visible.append(wname)
+                except ValueError:
+                    E.observe("refused")
+                    E.prove(conf, "a window with a legal name was refused")
+                    E.prove(counts() == before, "refusal changed the map")
+                continue
             if kind in ("same", "back"):
                 # re-adding under a name that is already visible must be refused, whatever object carries the name
                 if kind == "same":
@@ -207,6 +252,8 @@ def harness_for(cfg):
                 E.observe("ok")
                 E.prove(b_not(conf), "a window whose (absorbed) names conflict with visible names was accepted")
                 visible.extend(new_names)
+                if wname is None:
+                    anon.append((sub, list(new_names)))
             except ValueError:
                 E.observe("refused")
                 E.prove(conf, "a window with legal names was refused")
